@@ -384,6 +384,23 @@ theorem C15_key_bytes_injective (c1 c2 b1 b2 : List Nat) (h1 : 0 ∉ c1) (h2 : 0
       obtain ⟨hc, hb⟩ := ih ys (fun hm => h1 (by simp [hm])) (fun hm => h2 (by simp [hm])) hrest
       exact ⟨by rw [hxy, hc], hb⟩
 
+/-- **C15 (class name, file name and source are keyed unambiguously)**: neither a class name nor a file name contains a NUL,
+so the bytes `class NUL file NUL source` determine all three -/
+theorem C15_key_bytes_file_injective (c1 c2 f1 f2 b1 b2 : List Nat) (hc1 : 0 ∉ c1) (hc2 : 0 ∉ c2) (hf1 : 0 ∉ f1) (hf2 : 0 ∉ f2)
+    (h : keyBytesFile c1 f1 b1 = keyBytesFile c2 f2 b2) : c1 = c2 ∧ f1 = f2 ∧ b1 = b2 := by
+  have h1 := C15_key_bytes_injective c1 c2 (keyBytes f1 b1) (keyBytes f2 b2) hc1 hc2 h
+  have h2 := C15_key_bytes_injective f1 f2 b1 b2 hf1 hf2 h1.2
+  exact ⟨h1.1, h2.1, h2.2⟩
+
+/-- without the file name in the hashed bytes (the code before the fix: finding D-15e) `page.pt` and `page.txt` with the same
+source have the same bytes — and the same module name, which drops the extension -/
+theorem C15_key_bytes_file_old_counterexample :
+    let b (s : String) : List Nat := s.toList.map Char.toNat
+    keyBytes (b "PageTemplateFile") (b "<p>x</p>") = keyBytes (b "PageTemplateFile") (b "<p>x</p>") ∧ b "/d/page.pt" ≠ b "/d/page.txt" := by decide
+
+/-- the tie: the layout observed on the real `digest` of a template with a file name in this run -/
+theorem C15_key_file_layout_tie : ChamVerif.Gen.digestFileLayout = "class-nul-file-nul-body" := by decide
+
 /-- with the source directly followed by the class name (the code before the fix: finding D-15d) two different pairs share
 their bytes: `"Hello " ++ "PageTemplate" = "Hello Page" ++ "Template"` -/
 theorem C15_key_bytes_old_counterexample :
